@@ -852,18 +852,46 @@ func c18Udp4pkt(c *Ctx, f *ssa.Function) {
 	packet, dest, src := sx.Of(f.Params[0]).String(), sx.Of(f.Params[1]).String(), sx.Of(f.Params[2]).String()
 	// the two field structs
 	var ipF, udpF map[string]string
-	allInstrs(f, func(in ssa.Instruction) {
-		al, ok := in.(*ssa.Alloc)
-		if !ok {
-			return
+	// the literals may sit in an unexported helper of the package called from udp4pkt with its own parameters
+	// (writeUDPHeader(hdr, packet, dest, src, udpLen)): the helper's parameters are rewritten to the arguments
+	for _, g := range marshalHelpers(c, f) {
+		g := g
+		subst := map[string]string{}
+		if g != f {
+			allInstrs(f, func(in ssa.Instruction) {
+				if cl, ok := in.(*ssa.Call); ok && cl.Call.StaticCallee() == g {
+					for i, p := range g.Params {
+						if i < len(cl.Call.Args) {
+							subst[sx.Of(p).String()] = sx.Of(cl.Call.Args[i]).String()
+						}
+					}
+				}
+			})
 		}
-		switch {
-		case namedIs(al.Type(), nc4, "ipv4Fields"):
-			ipF, _ = allocFieldStores(c, al)
-		case namedIs(al.Type(), nc4, "udpFields"):
-			udpF, _ = allocFieldStores(c, al)
+		rew := func(m map[string]string) map[string]string {
+			for k, v := range m {
+				for from, to := range subst {
+					v = strings.ReplaceAll(v, from, to)
+				}
+				m[k] = v
+			}
+			return m
 		}
-	})
+		allInstrs(g, func(in ssa.Instruction) {
+			al, ok := in.(*ssa.Alloc)
+			if !ok {
+				return
+			}
+			switch {
+			case namedIs(al.Type(), nc4, "ipv4Fields") && ipF == nil:
+				m, _ := allocFieldStores(c, al)
+				ipF = rew(m)
+			case namedIs(al.Type(), nc4, "udpFields") && udpF == nil:
+				m, _ := allocFieldStores(c, al)
+				udpF = rew(m)
+			}
+		})
+	}
 	if ipF == nil || udpF == nil {
 		r.Undecided("C18-K5", key("field structs"), c.P.pos(f.Pos()), "ipv4Fields / udpFields literals not found")
 		return
